@@ -254,6 +254,27 @@ def history_contract(env, factory, props, const=None, setup_model=None, pre=None
         for n in hA.out_names:
             env.eq(props, "H-out %s after an evaluation at another point%s" % (n, _tag(path)), o[n], oC[n])
     t1 = _time.time() - t0
+    # the same Problem set up twice before it is run (lists or counters filled in setup() and created elsewhere grow)
+    def factory_resetup():
+        c = factory()
+        c._oasverif_resetup = True
+        return c
+    try:
+        hR = env.comp("resetup", factory_resetup, setup_model)
+        if pre:
+            pre(env, hR)
+        same = hR.in_names == hF.in_names and hR.out_names == hF.out_names and all(hR.shape[n] == hF.shape[n] for n in hF.in_names + hF.out_names)
+        err = None if same else "variables or shapes differ after the second set-up"
+    except S.OutsideFragment:
+        raise
+    except Exception as e:
+        hR, err = None, "%s: %s" % (type(e).__name__, str(e)[:120])
+    env.holds(props, "H-setup a second set-up of the same Problem leaves the component's variables and shapes unchanged", err is None, err or "")
+    if err is None:
+        for path, o in env.explore(lambda: hR.compute(ins)):
+            oC = fresh()
+            for n in hR.out_names:
+                env.eq(props, "H-out %s after the Problem was set up twice%s" % (n, _tag(path)), o[n], oC[n])
     free = [k for k in hF.in_names if not (const and k in const)]
     # cost guard: a sweep costs about 4/3 of the block above per input; components whose symbolic evaluation is slow get the
     # sweeps in the thorough tier only (noted in the evidence)
